@@ -62,7 +62,7 @@ class CallGen:
             # a routine registered under a name the plugin also knows as a macro / helper: the registry comes first
             builtin_like = ch.choice(["get_npc", "STORE_SLOT_CANCELLED", "WRITE_PRED", "WRITE_REG"], "builtin")
         kind = ch.weighted([("ret_param", 4), ("ret_cast", 3), ("ret_bin", 3), ("local", 3), ("branch", 3), ("postinc", 4),
-                            ("nested", 4 if self.value_funcs() else 0), ("loop", 2), ("void_write", 2), ("pc_read", 1), ("ext_write_ret", 3),
+                            ("nested", 7 if self.value_funcs() else 0), ("loop", 2), ("void_write", 2), ("pc_read", 1), ("ext_write_ret", 3),
                             ("ret_const", 2), ("mixed_sign", 5)], "fkind")
         A = self.cfg == "A"
         if kind == "ret_param":
